@@ -25,6 +25,10 @@ def conditions(tier):
                 L = 2
             cs.append(C(HF, codec, "h_text", h, w, l=L, t=T * (2 if L >= 4 else 1),
                         key="h_text:%s:%s" % (codec, "dim0" if h * w == 0 else ("1xN" if min(h, w) == 1 else "HxW"))))
+    # room codecs that do not start at offset 0 of the text
+    for (h, w) in ([(1, 2), (2, 2)] if q else [(1, 2), (2, 1), (2, 2), (1, 3)]):
+        cs.append(C(HF, "Tupl_Hex_Rooms", "h_text", h, w, l=3, t=2 * T, key="h_text:Rooms-at-offset"))
+        cs.append(C(HF, "Tupl_Hex_VRooms", "h_text", h, w, l=3 if q else 4, t=2 * T, key="h_text:Rooms-at-offset"))
     for codec in ("Rooms", "Rooms_skip", "Rooms_redundant", "ValuedRooms", "Grid_SpacesHex"):
         for (h, w) in ([(0, 1), (1, 0), (1, 2), (2, 2)] if q else dims):
             cs.append(C(HF, codec, "h_text", h, w, l=2 if (q and h * w == 4) else 3, t=T, key="h_text:%s:%s" % (codec, "dim0" if h * w == 0 else ("1xN" if min(h, w) == 1 else "HxW"))))
@@ -40,6 +44,56 @@ def conditions(tier):
     return cs
 
 
+_HUGE_SCRIPT = r"""
+import sys, time, resource, importlib
+sys.path.insert(0, sys.argv[1])
+resource.setrlimit(resource.RLIMIT_AS, (4 << 30, 4 << 30))
+from cspuz.problem_serializer import deserialize_problem_as_url
+for name in sys.argv[2:]:
+    comb = getattr(importlib.import_module("cspuz.puzzle." + name), name.upper() + "_COMBINATOR")
+    for (w, h) in [(10**13, 2), (2, 10**13), (2**63, 2**63), (10**6, 10**6)]:
+        for body in ["", "0", "00g", "a1"]:
+            t0 = time.time()
+            url = "https://puzz.link/p?%s/%d/%d/%s" % (name, w, h, body)
+            try:
+                r = deserialize_problem_as_url(comb, url, allow_failure=True)
+                out = "None" if r is None else "VALUE"
+            except ValueError:
+                out = "ValueError"
+            except BaseException as e:
+                out = "CRASH:" + type(e).__name__
+            print("%s\t%d\t%d\t%s\t%s\t%.1f" % (name, w, h, body, out, time.time() - t0), flush=True)
+"""
+
+
+def table_huge(rep):
+    """declared sizes far beyond memory with short bodies: None / ValueError, promptly, without allocating the board first
+    (finite table in a subprocess with a 4 GiB address-space limit; no solver involved, labelled)"""
+    import subprocess
+    import sys
+    try:
+        p = subprocess.run([sys.executable, "-B", "-c", _HUGE_SCRIPT, common.REPO] + PUZZLES, stdout=subprocess.PIPE, stderr=subprocess.PIPE,
+                           text=True, timeout=240)
+        lines, timed_out = p.stdout.splitlines(), False
+    except subprocess.TimeoutExpired as e:
+        out = e.stdout or ""
+        lines, timed_out = (out.decode() if isinstance(out, bytes) else out).splitlines(), True
+    seen = 0
+    for ln in lines:
+        f = ln.split("\t")
+        if len(f) != 6:
+            continue
+        seen += 1
+        rep.finite_tables += 1
+        if f[4] not in ("None", "ValueError") or float(f[5]) > 20:
+            rep.counterexample("huge-size:" + f[0], "%s/%s/%s/%s -> %s after %ss" % (f[0], f[1], f[2], f[3], f[4], f[5]),
+                               {"engine": "table", "what": "huge", "fn": f[0]}, True)
+            return
+    if timed_out or seen != len(PUZZLES) * 16:
+        rep.counterexample("huge-size:hang", "decoding a URL with an absurd declared size did not return (last line: %r)" % (lines[-1:] or None,),
+                           {"engine": "table", "what": "huge", "fn": "?"}, True)
+
+
 def run(tier, only=None):
     rep = common.Report("C17", tier, "other", FILES)
     validate_models(rep)
@@ -53,6 +107,8 @@ def run(tier, only=None):
         comb = getattr(importlib.import_module("cspuz.puzzle." + codec), codec.upper() + "_COMBINATOR")
         fns.append((codec, lambda s, comb=comb: deserialize_problem(comb, s, height=1, width=2)))
     nd_table(rep, fns, ["-10g", "+100", "11g", "g1", "0."])
+    if not only:
+        table_huge(rep)
     rep.functions = ["deserialize_problem / deserialize_problem_as_url / get_puzzle_info_from_url", "all Combinator.deserialize methods",
                      "the nine puzzle codecs' *_COMBINATOR", "YajilinClue.deserialize"]
     rep.bounds = {"bodies": "EVERY Unicode text of length <= 3 (4 on two-cell boards for the hex codecs) per codec and per declared (height,width)",
@@ -60,6 +116,8 @@ def run(tier, only=None):
                   "histories": "each puzzle codec additionally after a decode + encode of another board size in the same process",
                   "URL level": "symbolic width/height/puzzle name/allow_failure/return_size with bodies from a fixed list; fully symbolic url of "
                   "length <= 5/6",
+                  "absurd declared sizes": "finite table: widths / heights 10^6, 10^13, 2^63 with 4 short bodies per codec in a subprocess limited "
+                  "to 4 GiB: None / ValueError within 20 s (no solver involved)",
                   "non-ASCII decimal digits reaching int()": "finite table (every Nd character in every position of 5 seed bodies, 9 codecs)"}
     rep.outside = ["longer bodies", "Rooms._deserialize floods recursively: an all-zero body on a board with h*w > ~990 cells raises RecursionError "
                    "(recursion depth = h*w); no bound reachable by symbolic execution gets there - recorded as an out-of-bound risk, not decided here"]
@@ -70,6 +128,14 @@ def run(tier, only=None):
 
 
 def replay(payload, verbose=False):
+    if payload.get("what") == "huge":
+        rep = common.Report("C17", "quick", "other", FILES)
+        hits = []
+        rep.counterexample = lambda key, text, pl, ok: hits.append(text)   # type: ignore
+        table_huge(rep)
+        if verbose:
+            print(hits)
+        return bool(hits)
     if payload.get("engine") == "table":
         comb = getattr(importlib.import_module("cspuz.puzzle." + payload["fn"]), payload["fn"].upper() + "_COMBINATOR")
         try:
